@@ -182,3 +182,113 @@ package ddsketch
 //@   loop 1 invariant (old(KCount(s)) > 0.0 || $i1 == 0) && (forall j int :: 0 <= j && j < $i1 ==> quantiles[j] >= 0.0 && quantiles[j] <= 1.0)
 //@   loop 1 invariant forall j int :: 0 <= j && j < len(quantiles) ==> same(quantiles[j], old(quantiles[j]))
 //@   hint store.STotNonneg(s.positiveValueStore), store.STotNonneg(s.negativeValueStore)
+
+// ================================================================ sketch with exact summary statistics
+// The statistics count is the total weight of the sketch; an empty sketch has the sentinel extremes.
+//@ pred EInv(s *DDSketchWithExactSummaryStatistics) := s != nil && s.DDSketch != nil && s.summaryStatistics != nil && KInv(s.DDSketch) && stat.SSInv(s.summaryStatistics) && same(s.summaryStatistics.count, xf(KCount(s.DDSketch))) && s.summaryStatistics.count >= 0.0 && (s.summaryStatistics.count == 0.0 ==> same(s.summaryStatistics.min, pinf()) && same(s.summaryStatistics.max, ninf())) && (s.summaryStatistics.count > 0.0 ==> s.summaryStatistics.min <= s.summaryStatistics.max)
+//@ pred ESameStats(s *DDSketchWithExactSummaryStatistics) := s.summaryStatistics == old(s.summaryStatistics) && stat.SSSame(s.summaryStatistics, old(s.summaryStatistics))
+//@ footprint DDSketchWithExactSummaryStatistics(s) := s, s.summaryStatistics, footprint(s.DDSketch)
+
+//@ func DDSketchWithExactSummaryStatistics.IsEmpty
+//@   serves C10 C12
+//@   requires EInv(s)
+//@   ensures result == (KCount(s.DDSketch) == 0.0)
+
+//@ func DDSketchWithExactSummaryStatistics.GetCount
+//@   serves C10 C12
+//@   requires EInv(s)
+//@   ensures same(result, xf(KCount(s.DDSketch))) && same(result, s.summaryStatistics.count)
+
+//@ func DDSketchWithExactSummaryStatistics.GetZeroCount
+//@   serves C10
+//@   requires EInv(s)
+//@   ensures same(result, s.DDSketch.zeroCount)
+
+//@ func DDSketchWithExactSummaryStatistics.GetSum
+//@   serves C10
+//@   requires EInv(s)
+//@   ensures same(result, s.summaryStatistics.sum)
+
+//@ func DDSketchWithExactSummaryStatistics.GetMinValue
+//@   serves C10 C12
+//@   requires EInv(s)
+//@   ensures KCount(s.DDSketch) == 0.0 ==> result1 != nil
+//@   ensures KCount(s.DDSketch) > 0.0 ==> result1 == nil && same(result, s.summaryStatistics.min)
+//@   hint store.STotNonneg(s.DDSketch.positiveValueStore), store.STotNonneg(s.DDSketch.negativeValueStore)
+
+//@ func DDSketchWithExactSummaryStatistics.GetMaxValue
+//@   serves C10 C12
+//@   requires EInv(s)
+//@   ensures KCount(s.DDSketch) == 0.0 ==> result1 != nil
+//@   ensures KCount(s.DDSketch) > 0.0 ==> result1 == nil && same(result, s.summaryStatistics.max)
+//@   hint store.STotNonneg(s.DDSketch.positiveValueStore), store.STotNonneg(s.DDSketch.negativeValueStore)
+
+// Adding: the statistics change only when the underlying sketch accepted the value with a positive weight;
+// invalid input (also with weight 0) is refused with the documented error and changes nothing.
+//@ func DDSketchWithExactSummaryStatistics.AddWithCount
+//@   serves C10 C13
+//@   requires EInv(s) && finite(count)
+//@   ensures EInv(s) && s.DDSketch == old(s.DDSketch) && s.summaryStatistics == old(s.summaryStatistics)
+//@   ensures neg-count: count < 0.0 ==> result == ErrNegativeCount
+//@   ensures nan: count >= 0.0 && isnan(value) ==> result == ErrUntrackableNaN
+//@   ensures too-high: count >= 0.0 && value > xf(mapping.MMax(s.DDSketch.IndexMapping)) ==> result == ErrUntrackableTooHigh
+//@   ensures too-low: count >= 0.0 && value < xf(0.0 - mapping.MMax(s.DDSketch.IndexMapping)) ==> result == ErrUntrackableTooLow
+//@   ensures accepted: count >= 0.0 && !isnan(value) && value <= xf(mapping.MMax(s.DDSketch.IndexMapping)) && value >= xf(0.0 - mapping.MMax(s.DDSketch.IndexMapping)) ==> result == nil
+//@   ensures refused: result != nil ==> ESameStats(s) && KCount(s.DDSketch) == old(KCount(s.DDSketch))
+//@   ensures stats: result == nil && count > 0.0 ==> same(s.summaryStatistics.count, old(s.summaryStatistics.count) + count) && same(s.summaryStatistics.sum, old(s.summaryStatistics.sum) + value * count) && same(s.summaryStatistics.min, value < old(s.summaryStatistics.min) ? value : old(s.summaryStatistics.min)) && same(s.summaryStatistics.max, value > old(s.summaryStatistics.max) ? value : old(s.summaryStatistics.max))
+//@   ensures zero-weight: result == nil && count == 0.0 ==> ESameStats(s) && KCount(s.DDSketch) == old(KCount(s.DDSketch))
+//@   ensures stable: footprintStable(s)
+//@   modifies footprint(s)
+
+//@ func DDSketchWithExactSummaryStatistics.Add
+//@   serves C10 C13
+//@   requires EInv(s)
+//@   ensures EInv(s) && s.DDSketch == old(s.DDSketch) && s.summaryStatistics == old(s.summaryStatistics)
+//@   ensures rejected: (isnan(value) || value > xf(mapping.MMax(s.DDSketch.IndexMapping)) || value < xf(0.0 - mapping.MMax(s.DDSketch.IndexMapping))) ==> result != nil && ESameStats(s) && KCount(s.DDSketch) == old(KCount(s.DDSketch))
+//@   ensures stats: !(isnan(value) || value > xf(mapping.MMax(s.DDSketch.IndexMapping)) || value < xf(0.0 - mapping.MMax(s.DDSketch.IndexMapping))) ==> result == nil && same(s.summaryStatistics.count, old(s.summaryStatistics.count) + 1.0) && same(s.summaryStatistics.sum, old(s.summaryStatistics.sum) + value) && same(s.summaryStatistics.min, value < old(s.summaryStatistics.min) ? value : old(s.summaryStatistics.min)) && same(s.summaryStatistics.max, value > old(s.summaryStatistics.max) ? value : old(s.summaryStatistics.max))
+//@   ensures stable: footprintStable(s)
+//@   modifies footprint(s)
+
+//@ func DDSketchWithExactSummaryStatistics.Clear
+//@   serves C10 C15
+//@   requires EInv(s)
+//@   ensures EInv(s) && s.DDSketch == old(s.DDSketch) && s.summaryStatistics == old(s.summaryStatistics) && KCount(s.DDSketch) == 0.0 && stat.SSEmptyState(s.summaryStatistics)
+//@   ensures stable: footprintStable(s)
+//@   modifies footprint(s)
+
+//@ func DDSketchWithExactSummaryStatistics.Copy
+//@   serves C10 C14
+//@   requires EInv(s)
+//@   ensures result != nil && fresh(result) && EInv(result) && stat.SSSame(result.summaryStatistics, s.summaryStatistics) && KCount(result.DDSketch) == KCount(s.DDSketch)
+//@   ensures independent: footprintFresh(result)
+//@   ensures pure: EInv(s) && ESameStats(s) && s.DDSketch == old(s.DDSketch) && KSame(s.DDSketch)
+
+//@ func DDSketchWithExactSummaryStatistics.Reweight
+//@   serves C10 C16 C13
+//@   requires EInv(s) && finite(factor)
+//@   ensures EInv(s) && s.DDSketch == old(s.DDSketch) && s.summaryStatistics == old(s.summaryStatistics)
+//@   ensures refuse: factor <= 0.0 ==> result != nil && ESameStats(s) && KSame(s.DDSketch)
+//@   ensures ok: factor > 0.0 ==> result == nil && same(s.summaryStatistics.count, old(s.summaryStatistics.count) * factor) && same(s.summaryStatistics.sum, old(s.summaryStatistics.sum) * factor) && same(s.summaryStatistics.min, old(s.summaryStatistics.min)) && same(s.summaryStatistics.max, old(s.summaryStatistics.max))
+//@   ensures stable: footprintStable(s)
+//@   modifies footprint(s)
+
+//@ func DDSketchWithExactSummaryStatistics.MergeWith
+//@   serves C10 C02 C13
+//@   requires EInv(s) && EInv(o) && disjoint(s, o)
+//@   ensures EInv(s) && EInv(o) && s.DDSketch == old(s.DDSketch) && s.summaryStatistics == old(s.summaryStatistics)
+//@   ensures refuse: !mapping.MEq(s.DDSketch.IndexMapping, o.DDSketch.IndexMapping) ==> result != nil && ESameStats(s) && KSame(s.DDSketch)
+//@   ensures ok: mapping.MEq(s.DDSketch.IndexMapping, o.DDSketch.IndexMapping) ==> result == nil && same(s.summaryStatistics.count, old(s.summaryStatistics.count) + old(o.summaryStatistics.count)) && same(s.summaryStatistics.sum, old(s.summaryStatistics.sum) + old(o.summaryStatistics.sum)) && same(s.summaryStatistics.min, old(o.summaryStatistics.min) < old(s.summaryStatistics.min) ? old(o.summaryStatistics.min) : old(s.summaryStatistics.min)) && same(s.summaryStatistics.max, old(o.summaryStatistics.max) > old(s.summaryStatistics.max) ? old(o.summaryStatistics.max) : old(s.summaryStatistics.max))
+//@   ensures arg: stat.SSSame(o.summaryStatistics, old(o.summaryStatistics)) && o.summaryStatistics == old(o.summaryStatistics) && o.DDSketch == old(o.DDSketch)
+//@   ensures stable: footprintStable(s) && footprintStable(o)
+//@   modifies footprint(s), footprint(o)
+
+// quantile answers are the plain sketch's answers clamped to the exact extremes
+//@ func DDSketchWithExactSummaryStatistics.GetValueAtQuantile
+//@   serves C10 C13
+//@   requires EInv(s)
+//@   ensures EInv(s) && ESameStats(s) && s.DDSketch == old(s.DDSketch) && KSame(s.DDSketch)
+//@   ensures reject: (!(quantile >= 0.0 && quantile <= 1.0) || old(KCount(s.DDSketch)) == 0.0) ==> result1 != nil
+//@   ensures accept: quantile >= 0.0 && quantile <= 1.0 && old(KCount(s.DDSketch)) > 0.0 ==> result1 == nil
+//@   ensures clamped: result1 == nil ==> s.summaryStatistics.min <= result && result <= s.summaryStatistics.max
+//@   ensures stable: footprintStable(s)
+//@   modifies footprint(s)
